@@ -190,7 +190,10 @@ func init() {
 					}
 					c, err := net.DialTimeout("tcp", s.addr, time.Second)
 					if err != nil {
-						bad("cannot-connect-before-shutdown", err.Error())
+						// a client that was scheduled late dials a server that is already shutting down: refused by design
+						if shutdownBegan.Load() == 0 {
+							bad("cannot-connect-before-shutdown", err.Error())
+						}
 						return
 					}
 					defer c.Close()
@@ -201,24 +204,29 @@ func init() {
 					switch pl.kind {
 					case 0: // busy: request in, handler blocked until after the shutdown call
 						fmt.Fprint(c, reqText(id))
+						// the handler returns after the shutdown began exactly when the status had left `running`
+						// before the handler was let go (read here, not inferred from the planned times)
+						var afterShutdown atomic.Bool
+						relDone := make(chan struct{})
 						go func() {
 							time.Sleep(shutdownAt + time.Duration(pl.delay)*time.Millisecond - time.Since(t0))
+							afterShutdown.Store(!s.h.IsRunning())
 							s.release(id)
+							close(relDone)
 						}()
 						res := c18read(br, id)
-						got := time.Now().UnixNano()
-						_ = got
 						if _, arrived := s.arrived.Load(id); arrived && exitWait > time.Duration(pl.delay+150)*time.Millisecond {
 							if !res.complete {
 								bad("received-request-without-a-complete-response", id+": "+res.err)
-							} else if !res.close {
+							} else if <-relDone; afterShutdown.Load() && !res.close {
 								bad("response-after-shutdown-began-lacks-connection-close", id)
 							}
 						}
 					case 1: // idle keep-alive: one full exchange, then silence
 						s.release(id)
 						fmt.Fprint(c, reqText(id))
-						if res := c18read(br, id); !res.complete {
+						res := c18read(br, id)
+						if _, arrived := s.arrived.Load(id); arrived && !res.complete {
 							bad("received-request-without-a-complete-response", id+" (before shutdown): "+res.err)
 						}
 						// stay connected until the server closes or the deadline passes
@@ -350,7 +358,7 @@ func init() {
 			}
 			// a Shutdown that returned early claims the server was drained: every connection it had accepted
 			// must have been served by then
-			if late := servedLate.Load(); res1 == nil && d1 < exitWait-100*time.Millisecond && late > shutdownReturned.Load()+int64(60*time.Millisecond) {
+			if late := servedLate.Load(); res1 == nil && d1 < exitWait-100*time.Millisecond && late > shutdownReturned.Load()+int64(120*time.Millisecond) {
 				bad("shutdown-returned-drained-before-an-accepted-connection-was-served",
 					fmt.Sprintf("returned after %v, last response %v later", d1, time.Duration(late-shutdownReturned.Load())))
 			}
